@@ -81,3 +81,37 @@ def tu_text(cases, emulated=False):
         head += "#define XSIMD_WITH_EMULATED 1\n"
     head += "#include <xsimd/xsimd.hpp>\n#include <cstdint>\n"
     return head + "".join(entry_text(*c) for c in cases)
+
+
+# ---- scalar overloads (C17) ---------------------------------------------------------------------------------------
+SOPS = {}
+for _n in ("add", "sub", "mul", "div", "mod", "min", "max", "sadd", "ssub", "avg", "avgr", "bitwise_and", "bitwise_or", "bitwise_xor",
+           "bitwise_andnot"):
+    SOPS[_n] = ("xsimd::%s(a, b)" % _n, "TT", INT_TYPES, "T")
+for _n in ("neg", "abs", "incr", "decr", "bitwise_not", "sign"):
+    SOPS[_n] = ("xsimd::%s(a)" % _n, "T", INT_TYPES, "T")
+for _n in ("fma", "fms", "fnma", "fnms"):
+    SOPS[_n] = ("xsimd::%s(a, b, c)" % _n, "TTT", INT_TYPES, "T")
+for _n in ("bitwise_lshift", "bitwise_rshift", "rotl", "rotr"):
+    SOPS[_n] = ("xsimd::%s(a, n)" % _n, "TI", INT_TYPES, "T")
+for _n in ("eq", "neq", "lt", "le", "gt", "ge"):
+    SOPS[_n] = ("xsimd::%s(a, b)" % _n, "TT", ALL_TYPES, "bool")
+for _n in ("incr_if", "decr_if"):
+    SOPS[_n] = ("xsimd::%s(a, m)" % _n, "Tb", INT_TYPES, "T")
+SOPS["select"] = ("xsimd::select(m, a, b)", "bTT", ALL_TYPES, "T")
+
+
+def scalar_entry_name(opn, tid):
+    return "es_%s__%s" % (opn, tid)
+
+
+def scalar_entry_text(opn, tid):
+    expr, kinds, types, ret = SOPS[opn]
+    T = TYPES[tid][0]
+    names = {"T": iter(["a", "b", "c"]), "I": iter(["n"]), "b": iter(["m"])}
+    params = []
+    for k in kinds:
+        nm = next(names[k])
+        params.append("%s %s" % ({"T": T, "I": "int", "b": "bool"}[k], nm))
+    R = T if ret == "T" else ret
+    return 'extern "C" void %s(%s* r, %s) { *r = %s; }\n' % (scalar_entry_name(opn, tid), R, ", ".join(params), expr)
